@@ -1151,6 +1151,15 @@ static JanetSignal run_vm(JanetFiber *fiber, Janet in) {
             vm_commit();
             janet_panicv(retreg);
         }
+        /* The fiber to cancel may be suspended in a resume of the current fiber
+         * (which was since resumed directly); linking it as our child would make
+         * the child chain cyclic. */
+        for (JanetFiber *c = child->child; c != NULL; c = c->child) {
+            if (c == fiber) {
+                vm_commit();
+                janet_panic("cannot cancel fiber that is waiting on the current fiber");
+            }
+        }
         fiber->child = child;
         JanetSignal sig = janet_continue_signal(child, stack[C], &retreg, JANET_SIGNAL_ERROR);
         if (sig != JANET_SIGNAL_OK && !(child->flags & (1 << sig))) {
